@@ -68,11 +68,48 @@ def summary(prog, lf, mut_params):
     return out
 
 
+def tree_summary(prog, lf, mut_params):
+    """decision tree over the callee's parameters whose leaves are tuples (returned value, final value of each &mut pointee)"""
+    key = ("fxtree", lf["id"], tuple(mut_params))
+    if key in prog._hints:
+        return prog._hints[key]
+    res = None
+    sub = prog.analysis(lf)
+    if sub is not None and not sub.loops:
+        def value_of(t, st):
+            vals = [t]
+            for i in mut_params:
+                v = sub.read(st, (("M", T.param(i)), ()))
+                vals.append(v)
+            return T.agg("tuple", None, 0, None, vals)
+        items = prog.leaf_items(sub, value_of)
+        if items:
+            from .engine import build_tree
+            res = build_tree(items)
+    prog._hints[key] = res
+    return res
+
+
 def apply_effect_summary(prog, an, st, site, lf, callee, generics, args, arg_lvs, mut_idx, t):
     dty = t["dest"]["ty"]
     mut_params = [i + 1 for i in mut_idx]
     if an.depth > 6:
         return None
+    if not prog.known_name(lf):
+        # a helper the rules do not know by name: describe it by cases (so that extracting it changed nothing)
+        tree = tree_summary(prog, lf, mut_params)
+        if tree is not None:
+            before = {i: an.read(st, arg_lvs[i]) for i in mut_idx}
+            cargs = [T.refval(before[i]) if i in mut_idx else prog._stabilise(an, st, a) for i, a in enumerate(args)]
+            inst = prog.subst(an, st, tree, cargs, prog.gmap(lf, callee))
+            if inst is not None:
+                for k, i in enumerate(mut_idx):
+                    nv = T.proj(inst, ("f", k + 1, None))
+                    for x in nv.subterms():
+                        if x.op == "bin" and x.args[0] == "Add":
+                            prog.noovf.add(x)
+                    an.write(st, arg_lvs[i], nv)
+                return T.proj(inst, ("f", 0, None))
     s = summary(prog, lf, mut_params)
     if s["base"] is None:
         return None
